@@ -31,8 +31,18 @@ def prove(assumptions, goal, timeout_ms=DEFAULT_TIMEOUT_MS, seed=0, use_cvc5=Tru
     neg = z3.Not(goal)
     fs = [f for f in assumptions if not z3.is_true(f)] + [neg] + list(extra)
     inst = axioms.instantiate(fs)
-    # portfolio: z3 default (short) -> nlsat tactic -> cvc5 -> z3 default (full budget, other seed)
-    short = min(timeout_ms, 4000)
+    # portfolio: nlsat tactic (fast on pure polynomial identities, gives up at once
+    # otherwise) -> z3 default (short) -> cvc5 -> z3 default (full budget, other seed)
+    def nlsat(budget):
+        try:
+            tac = z3.Then("simplify", "solve-eqs", "qfnra-nlsat").solver()
+            tac.set("timeout", budget)
+            tac.add(*fs)
+            tac.add(*inst)
+            return tac.check()
+        except z3.Z3Exception:
+            return z3.unknown
+    short = min(timeout_ms, 3000)
     s = _mk_solver(short, seed)
     s.add(*fs)
     s.add(*inst)
@@ -42,16 +52,8 @@ def prove(assumptions, goal, timeout_ms=DEFAULT_TIMEOUT_MS, seed=0, use_cvc5=Tru
     if r == z3.sat:
         return Verdict("failed", time.time() - t0, "z3", model=s.model(), n_instances=len(inst))
     reason = s.reason_unknown()
-    try:
-        tac = z3.Then("simplify", "solve-eqs", "qfnra-nlsat").solver()
-        tac.set("timeout", min(timeout_ms, 15000))
-        tac.add(*fs)
-        tac.add(*inst)
-        r1 = tac.check()
-        if r1 == z3.unsat:
-            return Verdict("proved", time.time() - t0, "z3-nlsat", n_instances=len(inst))
-    except z3.Z3Exception:
-        pass
+    if nlsat(min(timeout_ms, 15000)) == z3.unsat:
+        return Verdict("proved", time.time() - t0, "z3-nlsat", n_instances=len(inst))
     if use_cvc5:
         v = _cvc5_check(s, min(timeout_ms, 15000))
         if v is not None:
